@@ -528,4 +528,5 @@ def controls(repo):
             return n.operand
         substitute(fn, pred, make, limit=1, expect=1)
     out.append(('neg-forgets-rate', repo.variant({'geodepy/constants.py': replace_in_function(src, 'Transformation.__neg__', neg_keep)}), '__neg__::d_sc'))
+    out.append(('in-place-epoch-shift', text_variant(repo, 'geodepy/constants.py', '    def __neg__(self):\n', '    def __iadd__(self, other):\n        self.ref_epoch = other\n        return self\n\n    def __neg__(self):\n'), 'Transformation.__iadd__::receiver-unchanged'))
     return out
